@@ -207,6 +207,12 @@ def case_text(case) -> str:
 	return json.dumps(case, sort_keys=True, default=repr)
 
 
+def frontend_exclusions() -> frozenset:
+	"""Generator flags of the listed C01 findings that checks of the front end (types, symbols, renaming, sessions) must avoid as well:
+	constructs the transpiler rejects or mis-types. Findings that only concern the emitted C++ text (`cpp_only`) stay in their generators."""
+	return frozenset(e['exclude_flag'] for e in load_known('C01') if e.get('status') == 'known' and e.get('exclude_flag') and not e.get('cpp_only'))
+
+
 def match_known(entries: list[dict], sig: str, case=None) -> dict | None:
 	"""A failure is a listed finding only if its signature matches AND (when the entry has `case_regex`) the failing input itself
 	contains the listed construct — a signature alone (e.g. any value mismatch) must never silence a different violation."""
